@@ -36,6 +36,30 @@ def writers_agree(obj, data, prop):
     obj.write_to(s)
     if b"".join(s.parts) != data:
         raise PropertyViolation(prop + ".write_to_sink", "write_to(write-only stream) wrote bytes that differ from read()", key=prop + ".write_to_vs_read")
+    # a BytesIO that already holds something and is positioned at its end
+    g = BytesIO()
+    g.write(b"HEAD")
+    obj.write_to(g)
+    if g.getvalue() != b"HEAD" + data:
+        raise PropertyViolation(prop + ".write_to_offset", "write_to(stream positioned after 4 earlier bytes) did not append exactly the bytes of read()", key=prop + ".write_to_vs_read")
+    # real files: opened for writing, and opened for appending after other content
+    fd, name = tempfile.mkstemp(prefix="rvverif_w_")
+    os.close(fd)
+    try:
+        for mode, head in (("wb", b""), ("ab", b"EARLIER CONTENT"), ("r+b", b"")):
+            with open(name, "wb") as f:
+                f.write(head)
+            with open(name, mode) as f:
+                obj.write_to(f)
+            with open(name, "rb") as f:
+                got = f.read()
+            if got != head + data:
+                raise PropertyViolation(prop + ".write_to_file", "write_to(file opened %r) left %d bytes in the file that differ from read() (%d bytes)" % (mode, len(got) - len(head), len(data)), key=prop + ".write_to_vs_read")
+    finally:
+        try:
+            os.unlink(name)
+        except OSError:
+            pass
 
 
 def loaders_agree(data, want_snap, snap_fn, prop, suffix):
